@@ -168,6 +168,20 @@ theorem step_serveRecv {H : Hash} {cfg : Cfg} {s s' : St} {i peer : Nat} {d : By
     · next hc => exact ⟨hs, by omega, (Option.some.inj h).symm⟩
   · cases h
 
+/-- the state after an enabled `serveRecv` is `spawn` of the state before -/
+theorem step_serveRecv_spawn {H : Hash} {cfg : Cfg} {s s' : St} {i peer : Nat} {d : Bytes}
+    (h : step H cfg s (.serveRecv i peer d) = some s') :
+    s.serves[i]? = some .running ∧ s.connClosed.getD (s.connOf.getD i 0) 0 = 0 ∧ s' = spawn H cfg s i peer d := by
+  obtain ⟨a, b, c⟩ := step_serveRecv h
+  exact ⟨a, b, c⟩
+
+theorem spawn_eq (H : Hash) (cfg : Cfg) (s : St) (i peer : Nat) (d : Bytes) :
+    spawn H cfg s i peer d =
+      { s with tasks := s.tasks ++ [⟨i, .spawned (classify H cfg peer d)⟩],
+               origin := s.origin ++ [⟨i, peer, d⟩],
+               log := s.log ++ [.recv s.tasks.length i peer d],
+               active := s.active + 1 } := rfl
+
 /-- a running Serve call returns with result `r`: the deferred cleanup (unregister, `activeDone`) -/
 def serveLeave (s : St) (i : Nat) (r : ServeRes) : St :=
   activeDone { s with serves := s.serves.set i (.returned r),
@@ -257,14 +271,37 @@ theorem step_taskFinish {H : Hash} {cfg : Cfg} {s s' : St} {t : Nat}
   · next i key hs => exact ⟨i, key, hs, (Option.some.inj h).symm⟩
   · cases h
 
-theorem step_taskReply {H : Hash} {cfg : Cfg} {s s' : St} {t : Nat}
-    (h : step H cfg s (.taskReply t) = some s') :
-    ∃ i key, s.tasks[t]? = some ⟨i, .inHandler key⟩ ∧
-      s' = { s with log := s.log ++ [.reply t (s.connOf.getD i 0) (s.peerOf t)] } := by
+theorem step_taskReply {H : Hash} {cfg : Cfg} {s s' : St} {t : Nat} {code : Int} {attrs : Attrs}
+    (h : step H cfg s (.taskReply t code attrs) = some s') :
+    ∃ i key p w, s.tasks[t]? = some ⟨i, .inHandler key⟩ ∧ s.packetOf H cfg t = some p ∧
+      encode H { response p code with attrs := attrs } = .ok w ∧
+      s' = { s with log := s.log ++ [.reply t (s.connOf.getD i 0) (s.peerOf t) w] } := by
   simp only [step] at h
   split at h
-  · next i key hs => exact ⟨i, key, hs, (Option.some.inj h).symm⟩
+  · next i key hs =>
+    split at h
+    · next p hp =>
+      split at h
+      · next w hw => exact ⟨i, key, p, w, hs, hp, hw, (Option.some.inj h).symm⟩
+      · cases h
+    · cases h
   · cases h
+
+/-- `packetOf` read off the origin: the goroutine's datagram was classified `handle _ p` -/
+theorem packetOf_some {H : Hash} {cfg : Cfg} {s : St} {t : Nat} {p : Packet} (h : s.packetOf H cfg t = some p) :
+    ∃ o key, s.origin[t]? = some o ∧ classify H cfg o.peer o.dgram = .handle key p := by
+  unfold St.packetOf at h
+  split at h
+  · next o ho =>
+    split at h
+    · next key p' hc => cases h; exact ⟨o, key, ho, hc⟩
+    · cases h
+  · cases h
+
+theorem packetOf_of_origin {H : Hash} {cfg : Cfg} {s : St} {t : Nat} {o : Origin} {key : Key} {p : Packet}
+    (ho : s.origin[t]? = some o) (hc : classify H cfg o.peer o.dgram = .handle key p) :
+    s.packetOf H cfg t = some p := by
+  simp [St.packetOf, ho, hc]
 
 theorem step_downEnter {H : Hash} {cfg : Cfg} {s s' : St} {j : Nat}
     (h : step H cfg s (.downEnter j) = some s') :
@@ -492,9 +529,10 @@ theorem InvG_ctxExpire {H cfg s s' j} (h : InvG s) (hs : step H cfg s (.ctxExpir
   exact ctx_set h.ctx (by intro c hc; cases hc; rfl)
 
 
-theorem InvG_serveRecv {H cfg s s' i peer d} (h : InvG s)
-    (hs : step H cfg s (.serveRecv i peer d) = some s') : InvG s' := by
-  obtain ⟨hrun, _, rfl⟩ := step_serveRecv hs
+/-- `spawn` by a running Serve call (the second half of `serveRecv`; `serveSpawn` of the fine machine) -/
+theorem InvG_spawn {H : Hash} {cfg : Cfg} {s : St} {i peer : Nat} {d : Bytes} (h : InvG s)
+    (hrun : s.serves[i]? = some .running) : InvG (spawn H cfg s i peer d) := by
+  rw [spawn_eq]
   have hi : i < s.serves.length := lt_of_getElem?_eq_some hrun
   have old : ∀ (t : Nat) (i' : Nat) (k : Key),
       (s.tasks ++ [(⟨i, .spawned (classify H cfg peer d)⟩ : Task)])[t]? = some (⟨i', .inHandler k⟩ : Task) →
@@ -524,6 +562,11 @@ theorem InvG_serveRecv {H cfg s s' i peer d} (h : InvG s)
     obtain ⟨i', h1 | h1⟩ := h.log t k hm'
     · exact ⟨i', Or.inl (new _ _ h1)⟩
     · exact ⟨i', Or.inr (new _ _ h1)⟩
+
+theorem InvG_serveRecv {H cfg s s' i peer d} (h : InvG s)
+    (hs : step H cfg s (.serveRecv i peer d) = some s') : InvG s' := by
+  obtain ⟨hrun, _, rfl⟩ := step_serveRecv_spawn hs
+  exact InvG_spawn h hrun
 
 
 /-- replacing a task that is not in a handler by one that is not in a handler does not change the
@@ -712,8 +755,9 @@ theorem InvG_taskFinish {H cfg s s' t} (h : InvG s) (hs : step H cfg s (.taskFin
       · exact ⟨i', Or.inl (hold t' _ htt h1)⟩
       · exact ⟨i', Or.inr (hold t' _ htt h1)⟩
 
-theorem InvG_taskReply {H cfg s s' t} (h : InvG s) (hs : step H cfg s (.taskReply t) = some s') : InvG s' := by
-  obtain ⟨i, key, _, rfl⟩ := step_taskReply hs
+theorem InvG_taskReply {H cfg s s' t code attrs} (h : InvG s)
+    (hs : step H cfg s (.taskReply t code attrs) = some s') : InvG s' := by
+  obtain ⟨i, key, p, w, _, _, _, rfl⟩ := step_taskReply hs
   refine h.of_same rfl rfl rfl ?_ h.ctx
   intro t k; simp
 
@@ -726,7 +770,7 @@ theorem InvG_step {H cfg s s'} (l : Label) (h : InvG s) (hs : step H cfg s l = s
   | serveReadFail i k => exact InvG_serveReadFail h hs
   | taskRun t => exact InvG_taskRun h hs
   | taskFinish t => exact InvG_taskFinish h hs
-  | taskReply t => exact InvG_taskReply h hs
+  | taskReply t code attrs => exact InvG_taskReply h hs
   | downEnter j => exact InvG_downEnter h hs
   | downReturnNil j => exact InvG_downReturnNil h hs
   | downReturnCtx j => exact InvG_downReturnCtx h hs
@@ -966,9 +1010,11 @@ theorem live_pos {s : St} {t : Nat} {a : Task} (h : s.tasks[t]? = some a) (ha : 
     liveTasks s ≥ 1 :=
   pos_of_getElem?_filter h (by simpa using ha)
 
-theorem InvF_serveRecv {H cfg s s' i peer d} (h : InvF s)
-    (hs : step H cfg s (.serveRecv i peer d) = some s') : InvF s' := by
-  obtain ⟨hrun, _, rfl⟩ := step_serveRecv hs
+/-- `spawn` by a running Serve call: the goroutine is counted before it exists, and `lastActive` cannot
+    have been closed because the Serve call itself is counted (`hpos`) -/
+theorem InvF_spawn {H : Hash} {cfg : Cfg} {s : St} {i peer : Nat} {d : Bytes} (h : InvF s)
+    (hrun : s.serves[i]? = some .running) : InvF (spawn H cfg s i peer d) := by
+  rw [spawn_eq]
   have hpos := counted_pos hrun
   have hl : liveTasks { s with tasks := s.tasks ++ [⟨i, .spawned (classify H cfg peer d)⟩], origin := s.origin ++ [⟨i, peer, d⟩], log := s.log ++ [.recv s.tasks.length i peer d], active := s.active + 1 } = liveTasks s + 1 := by
     simp [liveTasks, List.filter_append]
@@ -982,6 +1028,11 @@ theorem InvF_serveRecv {H cfg s s' i peer d} (h : InvF s)
     constructor
     · intro hc; have := hcl2.mp hc; omega
     · intro hc; omega
+
+theorem InvF_serveRecv {H cfg s s' i peer d} (h : InvF s)
+    (hs : step H cfg s (.serveRecv i peer d) = some s') : InvF s' := by
+  obtain ⟨hrun, _, rfl⟩ := step_serveRecv_spawn hs
+  exact InvF_spawn h hrun
 
 theorem countedServes_serveLeave {s : St} {i : Nat} (r : ServeRes) (hrun : s.serves[i]? = some .running) :
     countedServes (serveLeave s i r) + 1 = countedServes s := by
@@ -1166,8 +1217,9 @@ theorem InvF_ctxExpire {H cfg s s' j} (h : InvF s) (hs : step H cfg s (.ctxExpir
   intro c hc; cases hc
   exact h.nil j false hd
 
-theorem InvF_taskReply {H cfg s s' t} (h : InvF s) (hs : step H cfg s (.taskReply t) = some s') : InvF s' := by
-  obtain ⟨i, key, _, rfl⟩ := step_taskReply hs
+theorem InvF_taskReply {H cfg s s' t code attrs} (h : InvF s)
+    (hs : step H cfg s (.taskReply t code attrs) = some s') : InvF s' := by
+  obtain ⟨i, key, p, w, _, _, _, rfl⟩ := step_taskReply hs
   exact ⟨h.lenC, h.lenL, h.connB, h.noReg, h.act, h.cl1, h.cl2, h.sdc, h.nsd, h.cnt, h.nil⟩
 
 theorem InvF_step {H cfg s s'} (hv : cfg.variant = .fixed) (l : Label) (h : InvF s)
@@ -1180,7 +1232,7 @@ theorem InvF_step {H cfg s s'} (hv : cfg.variant = .fixed) (l : Label) (h : InvF
   | serveReadFail i k => exact InvF_serveReadFail h hs
   | taskRun t => exact InvF_taskRun h hs
   | taskFinish t => exact InvF_taskFinish h hs
-  | taskReply t => exact InvF_taskReply h hs
+  | taskReply t code attrs => exact InvF_taskReply h hs
   | downEnter j => exact InvF_downEnter h hs
   | downReturnNil j => exact InvF_downReturnNil h hs
   | downReturnCtx j => exact InvF_downReturnCtx h hs
@@ -1249,8 +1301,8 @@ theorem Drained_step {H cfg s s'} (l : Label) (h : Drained s) (hs : step H cfg s
     obtain ⟨i, key, ht, _⟩ := step_taskFinish hs
     have := h.tasks _ (List.mem_of_getElem? ht)
     cases this
-  | taskReply t =>
-    obtain ⟨i, key, ht, _⟩ := step_taskReply hs
+  | taskReply t code attrs =>
+    obtain ⟨i, key, p, w, ht, _⟩ := step_taskReply hs
     have := h.tasks _ (List.mem_of_getElem? ht)
     cases this
   | downEnter j =>
@@ -1361,9 +1413,17 @@ theorem taskFinish_enabled {H cfg} {s : St} {t i : Nat} {key : Key}
   simp only [step, ht]
   exact ⟨_, rfl⟩
 
-theorem drain_progress {H cfg} {s : St} (h : InvF s) (hsd : s.sd = true)
+/-- the drain labels that are steps of the SERVER ITSELF: the read of a Serve call fails because
+    Shutdown closed its conn, a datagram goroutine runs its pipeline, a handler returns.  The
+    environment's `serveReadFail` (a read error that does not come from `Close`) is NOT among them. -/
+def isOwnDrainLabel : Label → Bool
+  | .serveReadErr _ | .taskRun _ | .taskFinish _ => true
+  | _ => false
+
+/-- `drain_progress` with the label named: progress never needs the environment's `serveReadFail` -/
+theorem drain_progress_own {H cfg} {s : St} (h : InvF s) (hsd : s.sd = true)
     (hm : countedServes s + liveTasks s ≠ 0) :
-    ∃ l s', step H cfg s l = some s' ∧ s'.sd = true ∧ drainMeasure s' < drainMeasure s := by
+    ∃ l s', isOwnDrainLabel l = true ∧ step H cfg s l = some s' ∧ s'.sd = true ∧ drainMeasure s' < drainMeasure s := by
   by_cases hsp : spawnedTasks s = 0
   · by_cases hlv : liveTasks s = 0
     · -- a running serve
@@ -1376,7 +1436,7 @@ theorem drain_progress {H cfg} {s : St} (h : InvF s) (hsd : s.sd = true)
         rw [h.cnt]; exact runOnL_pos hi
       have hcc := (h.sdc hsd).2 _ hlp
       obtain ⟨s', hs'⟩ := serveReadErr_enabled (H := H) (cfg := cfg) hi hcc hsd
-      refine ⟨.serveReadErr i, s', hs', ?_⟩
+      refine ⟨.serveReadErr i, s', rfl, hs', ?_⟩
       obtain ⟨_, _, _, rfl⟩ := step_serveReadErr hs'
       refine ⟨by simp [hsd], ?_⟩
       · have hc := countedServes_serveLeave .errShutdown hi
@@ -1392,7 +1452,7 @@ theorem drain_progress {H cfg} {s : St} (h : InvF s) (hsd : s.sd = true)
       | done => simp at hp
       | inHandler key =>
         obtain ⟨s', hs'⟩ := taskFinish_enabled (H := H) (cfg := cfg) ht
-        refine ⟨.taskFinish t, s', hs', ?_⟩
+        refine ⟨.taskFinish t, s', rfl, hs', ?_⟩
         obtain ⟨i', key', ht', rfl⟩ := step_taskFinish hs'
         rw [ht] at ht'; cases ht'
         refine ⟨by simp [hsd], ?_⟩
@@ -1409,7 +1469,7 @@ theorem drain_progress {H cfg} {s : St} (h : InvF s) (hsd : s.sd = true)
     | done => simp at hp
     | spawned fate =>
       obtain ⟨s', hs'⟩ := taskRun_enabled (H := H) (cfg := cfg) ht
-      refine ⟨.taskRun t, s', hs', ?_⟩
+      refine ⟨.taskRun t, s', rfl, hs', ?_⟩
       obtain ⟨i', fate', ht', hh | hh⟩ := step_taskRun hs'
       · obtain ⟨key, p, rfl, hk, rfl⟩ := hh
         rw [ht] at ht'; cases ht'
@@ -1430,22 +1490,42 @@ theorem drain_progress {H cfg} {s : St} (h : InvF s) (hsd : s.sd = true)
         simp only [countedServes, liveTasks, spawnedTasks] at *
         omega
 
-theorem drain {H cfg} (hv : cfg.variant = .fixed) :
+theorem drain_progress {H cfg} {s : St} (h : InvF s) (hsd : s.sd = true)
+    (hm : countedServes s + liveTasks s ≠ 0) :
+    ∃ l s', step H cfg s l = some s' ∧ s'.sd = true ∧ drainMeasure s' < drainMeasure s := by
+  obtain ⟨l, s', _, h1, h2, h3⟩ := drain_progress_own (H := H) (cfg := cfg) h hsd hm
+  exact ⟨l, s', h1, h2, h3⟩
+
+/-- a draining schedule made of the server's own steps only -/
+theorem drain_own {H cfg} (hv : cfg.variant = .fixed) :
     ∀ (n : Nat) (s : St), InvF s → s.sd = true → drainMeasure s ≤ n →
-      ∃ ls', (run H cfg s ls').sd = true ∧
+      ∃ ls', (∀ l ∈ ls', isOwnDrainLabel l = true) ∧ (run H cfg s ls').sd = true ∧
         countedServes (run H cfg s ls') = 0 ∧ liveTasks (run H cfg s ls') = 0 := by
   intro n
   induction n with
   | zero =>
     intro s h hsd hm
-    refine ⟨[], hsd, ?_, ?_⟩ <;> simp only [run, drainMeasure] at hm ⊢ <;> omega
+    refine ⟨[], by simp, hsd, ?_, ?_⟩ <;> simp only [run, drainMeasure] at hm ⊢ <;> omega
   | succ n ih =>
     intro s h hsd hm
     by_cases hz : countedServes s + liveTasks s = 0
-    · refine ⟨[], hsd, ?_, ?_⟩ <;> simp only [run] <;> omega
-    · obtain ⟨l, s', hs, hsd', hlt⟩ := drain_progress (H := H) (cfg := cfg) h hsd hz
-      obtain ⟨ls', h0, h1, h2⟩ := ih s' (InvF_step hv l h hs) hsd' (by omega)
-      refine ⟨l :: ls', ?_, ?_, ?_⟩ <;> simp only [run, hs] <;> assumption
+    · refine ⟨[], by simp, hsd, ?_, ?_⟩ <;> simp only [run] <;> omega
+    · obtain ⟨l, s', hown, hs, hsd', hlt⟩ := drain_progress_own (H := H) (cfg := cfg) h hsd hz
+      obtain ⟨ls', hall, h0, h1, h2⟩ := ih s' (InvF_step hv l h hs) hsd' (by omega)
+      refine ⟨l :: ls', ?_, ?_, ?_, ?_⟩
+      · intro l' hl'
+        rcases List.mem_cons.mp hl' with rfl | hm'
+        · exact hown
+        · exact hall l' hm'
+      all_goals simp only [run, hs]; assumption
+
+theorem drain {H cfg} (hv : cfg.variant = .fixed) :
+    ∀ (n : Nat) (s : St), InvF s → s.sd = true → drainMeasure s ≤ n →
+      ∃ ls', (run H cfg s ls').sd = true ∧
+        countedServes (run H cfg s ls') = 0 ∧ liveTasks (run H cfg s ls') = 0 := by
+  intro n s h hsd hm
+  obtain ⟨ls', _, h0, h1, h2⟩ := drain_own (H := H) hv n s h hsd hm
+  exact ⟨ls', h0, h1, h2⟩
 
 theorem serveEnter_shutdown {H : Hash} {cfg : Cfg} {s : St} {i : Nat} (hsd : s.sd = true)
     (hi : s.serves[i]? = some .notStarted) :
@@ -1673,7 +1753,7 @@ theorem dropped_otherwise_false :
 /-! ### the trace: which events a step appends, and where an event of the log came from -/
 
 /-- the events a step with label `l` may append to the log, given the state `s` it is taken in -/
-def NewEv (s : St) : Label → Event → Prop
+def NewEv (H : Hash) (cfg : Cfg) (s : St) : Label → Event → Prop
   | .serveEnter i, e => e = .serveReturned i
   | .serveCount _, _ => False
   | .serveRecv i peer d, e => e = .recv s.tasks.length i peer d
@@ -1683,8 +1763,9 @@ def NewEv (s : St) : Label → Event → Prop
       ∃ i key p, s.tasks[t]? = some (⟨i, .spawned (.handle key p)⟩ : Task) ∧ key ∉ s.inflight.getD i [] ∧
         (e = .request t p (s.peerOf t) (s.connOf.getD i 0) .server ∨ e = .handlerStart t key)
   | .taskFinish t, e => e = .handlerEnd t ∨ e = .doubleClose
-  | .taskReply t, e => ∃ i key, s.tasks[t]? = some (⟨i, .inHandler key⟩ : Task) ∧
-      e = .reply t (s.connOf.getD i 0) (s.peerOf t)
+  | .taskReply t code attrs, e => ∃ i key p w, s.tasks[t]? = some (⟨i, .inHandler key⟩ : Task) ∧
+      s.packetOf H cfg t = some p ∧ encode H { response p code with attrs := attrs } = .ok w ∧
+      e = .reply t (s.connOf.getD i 0) (s.peerOf t) w
   | .downEnter _, e => (∃ c, e = .listenerClosed c) ∨ e = .doubleClose
   | .downReturnNil j, e => e = .downReturned j .nil
   | .downReturnCtx j, e => e = .downReturned j .ctxErr
@@ -1698,7 +1779,7 @@ theorem activeDone_log_append (s : St) :
 
 /-- every step appends to the log, and only events that `NewEv` lists -/
 theorem step_log {H : Hash} {cfg : Cfg} {s s' : St} {l : Label} (h : step H cfg s l = some s') :
-    ∃ evs, s'.log = s.log ++ evs ∧ ∀ e ∈ evs, NewEv s l e := by
+    ∃ evs, s'.log = s.log ++ evs ∧ ∀ e ∈ evs, NewEv H cfg s l e := by
   cases l with
   | serveEnter i =>
     obtain ⟨_, hh | hh | hh⟩ := step_serveEnter h
@@ -1722,7 +1803,7 @@ theorem step_log {H : Hash} {cfg : Cfg} {s s' : St} {l : Label} (h : step H cfg 
     · left; rfl
     · right; exact hd e hm
   | serveReadFail i k =>
-    have leave : ∀ r, ∃ evs, (serveLeave s i r).log = s.log ++ evs ∧ ∀ e ∈ evs, NewEv s (.serveReadFail i k) e := by
+    have leave : ∀ r, ∃ evs, (serveLeave s i r).log = s.log ++ evs ∧ ∀ e ∈ evs, NewEv H cfg s (.serveReadFail i k) e := by
       intro r
       obtain ⟨evs, he, hd⟩ := activeDone_log_append
         { s with serves := s.serves.set i (.returned r),
@@ -1764,11 +1845,11 @@ theorem step_log {H : Hash} {cfg : Cfg} {s s' : St} {l : Label} (h : step H cfg 
     rcases List.mem_cons.mp he' with rfl | hm
     · left; rfl
     · right; exact hd e hm
-  | taskReply t =>
-    obtain ⟨i, key, ht, rfl⟩ := step_taskReply h
-    refine ⟨[.reply t (s.connOf.getD i 0) (s.peerOf t)], rfl, ?_⟩
+  | taskReply t code attrs =>
+    obtain ⟨i, key, p, w, ht, hp, hw, rfl⟩ := step_taskReply h
+    refine ⟨[.reply t (s.connOf.getD i 0) (s.peerOf t) w], rfl, ?_⟩
     intro e he
-    exact ⟨i, key, ht, by simpa using he⟩
+    exact ⟨i, key, p, w, ht, hp, hw, by simpa using he⟩
   | downEnter j =>
     obtain ⟨c, _, hh | hh⟩ := step_downEnter h
     · obtain ⟨_, rfl⟩ := hh; exact ⟨[], by simp, by simp⟩
@@ -1817,7 +1898,7 @@ theorem run_log_mono (H : Hash) (cfg : Cfg) (e : Event) :
 theorem log_provenance (H : Hash) (cfg : Cfg) (e : Event) :
     ∀ (ls : List Label) (s0 : St), e ∈ (run H cfg s0 ls).log → e ∉ s0.log →
       ∃ ls1 l ls2 s', ls = ls1 ++ l :: ls2 ∧ step H cfg (run H cfg s0 ls1) l = some s' ∧
-        e ∉ (run H cfg s0 ls1).log ∧ NewEv (run H cfg s0 ls1) l e := by
+        e ∉ (run H cfg s0 ls1).log ∧ NewEv H cfg (run H cfg s0 ls1) l e := by
   intro ls
   induction ls with
   | nil => intro s0 h hn; exact absurd h hn
@@ -1868,9 +1949,12 @@ structure InvO (H : Hash) (cfg : Cfg) (s : St) : Prop where
   req : ∀ (t : Nat) (p : Packet) (peer conn : Nat) (ctx : Ctx), Event.request t p peer conn ctx ∈ s.log →
     ∃ o key, s.origin[t]? = some o ∧ classify H cfg o.peer o.dgram = .handle key p ∧
       peer = o.peer ∧ conn = s.connOf.getD o.serve 0 ∧ ctx = .server ∧ Event.handlerStart t key ∈ s.log
-  rep : ∀ (t conn addr : Nat), Event.reply t conn addr ∈ s.log →
+  rep : ∀ (t conn addr : Nat) (w : Bytes), Event.reply t conn addr w ∈ s.log →
     ∃ o key, s.origin[t]? = some o ∧ addr = o.peer ∧ conn = s.connOf.getD o.serve 0 ∧
-      Event.handlerStart t key ∈ s.log
+      Event.handlerStart t key ∈ s.log ∧
+      -- what was written: the encoding of a Response of the packet the goroutine's datagram parses to
+      ∃ (p : Packet) (code : Int) (attrs : Attrs), classify H cfg o.peer o.dgram = .handle key p ∧
+        encode H { response p code with attrs := attrs } = .ok w
 
 theorem InvO_initWith (H : Hash) (cfg : Cfg) (conns : List Nat) (nD : Nat) : InvO H cfg (initWith conns nD) := by
   refine ⟨rfl, ?_, ?_, ?_, ?_, rfl, ?_, ?_, ?_⟩
@@ -1880,27 +1964,29 @@ theorem InvO_initWith (H : Hash) (cfg : Cfg) (conns : List Nat) (nD : Nat) : Inv
   · intro t i k h; simp [initWith] at h
   · intro t k h; simp [initWith] at h
   · intro t p pe c x h; simp [initWith] at h
-  · intro t c a h; simp [initWith] at h
+  · intro t c a w h; simp [initWith] at h
 
 /-- a new event that is either outside the invariant's vocabulary or a well-formed reply -/
-def GoodNew (s : St) (e : Event) : Prop :=
+def GoodNew (H : Hash) (cfg : Cfg) (s : St) (e : Event) : Prop :=
   isTraced e = false ∨
-  ∃ (t conn addr : Nat) (o : Origin) (key : Key), e = .reply t conn addr ∧ s.origin[t]? = some o ∧ addr = o.peer ∧
-    conn = s.connOf.getD o.serve 0 ∧ Event.handlerStart t key ∈ s.log
+  ∃ (t conn addr : Nat) (w : Bytes) (o : Origin) (key : Key), e = .reply t conn addr w ∧ s.origin[t]? = some o ∧
+    addr = o.peer ∧ conn = s.connOf.getD o.serve 0 ∧ Event.handlerStart t key ∈ s.log ∧
+    ∃ (p : Packet) (code : Int) (attrs : Attrs), classify H cfg o.peer o.dgram = .handle key p ∧
+      encode H { response p code with attrs := attrs } = .ok w
 
-theorem mem_old_of_good {s : St} {evs : List Event} (hn : ∀ e ∈ evs, GoodNew s e) {e : Event}
-    (he : e ∈ s.log ++ evs) (ht : isTraced e = true) (hr : ∀ t c a, e ≠ .reply t c a) : e ∈ s.log := by
+theorem mem_old_of_good {H : Hash} {cfg : Cfg} {s : St} {evs : List Event} (hn : ∀ e ∈ evs, GoodNew H cfg s e) {e : Event}
+    (he : e ∈ s.log ++ evs) (ht : isTraced e = true) (hr : ∀ t c a w, e ≠ .reply t c a w) : e ∈ s.log := by
   rcases List.mem_append.mp he with h | h
   · exact h
-  · rcases hn e h with h1 | ⟨t, c, a, _, _, h1, _⟩
+  · rcases hn e h with h1 | ⟨t, c, a, w, _, _, h1, _⟩
     · rw [h1] at ht; cases ht
-    · exact absurd h1 (hr t c a)
+    · exact absurd h1 (hr t c a w)
 
 theorem InvO.of_same {H : Hash} {cfg : Cfg} {s s' : St} (h : InvO H cfg s)
     (ho : s'.origin = s.origin) (hc : s'.connOf = s.connOf) (hlen : s'.tasks.length = s.tasks.length)
     (htk : ∀ (t : Nat) (tk' : Task), s'.tasks[t]? = some tk' →
       ∃ tk, s.tasks[t]? = some tk ∧ tk.serve = tk'.serve ∧ (tk'.pc = tk.pc ∨ tk'.pc = .done))
-    (hlog : ∃ evs, s'.log = s.log ++ evs ∧ ∀ e ∈ evs, GoodNew s e) : InvO H cfg s' := by
+    (hlog : ∃ evs, s'.log = s.log ++ evs ∧ ∀ e ∈ evs, GoodNew H cfg s e) : InvO H cfg s' := by
   obtain ⟨evs, hl, hn⟩ := hlog
   have lift : ∀ e, e ∈ s.log → e ∈ s'.log := by
     intro e he; rw [hl]; exact List.mem_append_left _ he
@@ -1930,29 +2016,29 @@ theorem InvO.of_same {H : Hash} {cfg : Cfg} {s s' : St} (h : InvO H cfg s)
     have : evs.filter isRecv = [] := by
       apply List.filter_eq_nil_iff.mpr
       intro e he
-      rcases hn e he with h1 | ⟨t, c, a, _, _, h1, _⟩
+      rcases hn e he with h1 | ⟨t, c, a, w, _, _, h1, _⟩
       · cases e <;> simp [isTraced, isRecv] at h1 ⊢
       · subst h1; simp [isRecv]
     rw [this]; simp
   · intro t k hm
     rw [hl] at hm
-    have hm' := mem_old_of_good hn hm rfl (by intro _ _ _ hh; cases hh)
+    have hm' := mem_old_of_good hn hm rfl (by intro _ _ _ _ hh; cases hh)
     obtain ⟨o, p, h1, h2, h3⟩ := h.hs t k hm'
     exact ⟨o, p, by rw [ho]; exact h1, h2, by rw [hc]; exact lift _ h3⟩
   · intro t p pe c x hm
     rw [hl] at hm
-    have hm' := mem_old_of_good hn hm rfl (by intro _ _ _ hh; cases hh)
+    have hm' := mem_old_of_good hn hm rfl (by intro _ _ _ _ hh; cases hh)
     obtain ⟨o, k, h1, h2, h3, h4, h5, h6⟩ := h.req t p pe c x hm'
     exact ⟨o, k, by rw [ho]; exact h1, h2, h3, by rw [hc]; exact h4, h5, lift _ h6⟩
-  · intro t c a hm
+  · intro t c a w hm
     rw [hl] at hm
     rcases List.mem_append.mp hm with hm' | hm'
-    · obtain ⟨o, k, h1, h2, h3, h4⟩ := h.rep t c a hm'
-      exact ⟨o, k, by rw [ho]; exact h1, h2, by rw [hc]; exact h3, lift _ h4⟩
-    · rcases hn _ hm' with h1 | ⟨t', c', a', o, k, h1, h2, h3, h4, h5⟩
+    · obtain ⟨o, k, h1, h2, h3, h4, h5⟩ := h.rep t c a w hm'
+      exact ⟨o, k, by rw [ho]; exact h1, h2, by rw [hc]; exact h3, lift _ h4, h5⟩
+    · rcases hn _ hm' with h1 | ⟨t', c', a', w', o, k, h1, h2, h3, h4, h5, h6⟩
       · cases h1
       · cases h1
-        exact ⟨o, k, by rw [ho]; exact h2, h3, by rw [hc]; exact h4, lift _ h5⟩
+        exact ⟨o, k, by rw [ho]; exact h2, h3, by rw [hc]; exact h4, lift _ h5, h6⟩
 
 theorem tasks_same (s : St) : ∀ (t : Nat) (tk' : Task), s.tasks[t]? = some tk' →
     ∃ tk, s.tasks[t]? = some tk ∧ tk.serve = tk'.serve ∧ (tk'.pc = tk.pc ∨ tk'.pc = .done) :=
@@ -1968,8 +2054,8 @@ theorem tasks_set_done {tasks : List Task} {t i : Nat} {pc : TaskPc} (ht : tasks
 
 /-- the events of a step that does not touch the vocabulary of `InvO` -/
 theorem good_of_untraced {H : Hash} {cfg : Cfg} {s s' : St} {l : Label} (hs : step H cfg s l = some s')
-    (hu : ∀ e, NewEv s l e → isTraced e = false) :
-    ∃ evs, s'.log = s.log ++ evs ∧ ∀ e ∈ evs, GoodNew s e := by
+    (hu : ∀ e, NewEv H cfg s l e → isTraced e = false) :
+    ∃ evs, s'.log = s.log ++ evs ∧ ∀ e ∈ evs, GoodNew H cfg s e := by
   obtain ⟨evs, hl, hn⟩ := step_log hs
   exact ⟨evs, hl, fun e he => Or.inl (hu e (hn e he))⟩
 
@@ -1981,6 +2067,60 @@ theorem origin_of_task {H : Hash} {cfg : Cfg} {s : St} (h : InvO H cfg s) {t : N
   have hl : t < s.origin.length := by rw [h.len]; exact lt_of_getElem?_eq_some ht
   refine ⟨s.origin[t], List.getElem?_eq_getElem hl, ?_⟩
   exact h.serve t tk _ ht (List.getElem?_eq_getElem hl)
+
+/-- `spawn`: the new goroutine's origin is what the Serve call read; nothing old changes -/
+theorem InvO_spawn {H : Hash} {cfg : Cfg} {s : St} (i peer : Nat) (d : Bytes) (h : InvO H cfg s) :
+    InvO H cfg (spawn H cfg s i peer d) := by
+  rw [spawn_eq]
+  have hlen := h.len
+  have liftO : ∀ (t : Nat) (o : Origin), s.origin[t]? = some o → (s.origin ++ [(⟨i, peer, d⟩ : Origin)])[t]? = some o := by
+    intro t o hh
+    rw [List.getElem?_append_left (lt_of_getElem?_eq_some hh)]; exact hh
+  -- a position is old in both lists or new in both
+  have both : ∀ (t : Nat) (tk : Task) (o : Origin),
+      (s.tasks ++ [(⟨i, .spawned (classify H cfg peer d)⟩ : Task)])[t]? = some tk →
+      (s.origin ++ [(⟨i, peer, d⟩ : Origin)])[t]? = some o →
+      (s.tasks[t]? = some tk ∧ s.origin[t]? = some o) ∨
+      (tk = ⟨i, .spawned (classify H cfg peer d)⟩ ∧ o = ⟨i, peer, d⟩) := by
+    intro t tk o h1 h2
+    rcases getElem?_append_singleton_some h1 with a | ⟨a1, a2⟩ <;>
+    rcases getElem?_append_singleton_some h2 with b | ⟨b1, b2⟩
+    · exact Or.inl ⟨a, b⟩
+    · have := lt_of_getElem?_eq_some a; omega
+    · have := lt_of_getElem?_eq_some b; omega
+    · exact Or.inr ⟨a2.symm, b2.symm⟩
+  refine ⟨by simp [hlen], ?_, ?_, ?_, ?_, ?_, ?_, ?_, ?_⟩
+  · intro t tk o h1 h2
+    rcases both t tk o h1 h2 with ⟨a, b⟩ | ⟨rfl, rfl⟩
+    · exact h.serve t tk o a b
+    · rfl
+  · intro t i' f o h1 h2
+    rcases both t _ o h1 h2 with ⟨a, b⟩ | ⟨a, rfl⟩
+    · exact h.fate t i' f o a b
+    · cases a; rfl
+  · intro t i' k o h1 h2
+    rcases both t _ o h1 h2 with ⟨a, b⟩ | ⟨a, rfl⟩
+    · exact h.hand t i' k o a b
+    · cases a
+  · intro t i' k h1
+    rcases getElem?_append_singleton_some h1 with a | ⟨_, a⟩
+    · exact List.mem_append_left _ (h.inH t i' k a)
+    · cases a
+  · show (s.log ++ [Event.recv s.tasks.length i peer d]).filter isRecv = (s.origin ++ [(⟨i, peer, d⟩ : Origin)]).mapIdx recvOf
+    rw [List.filter_append, List.mapIdx_concat, ← h.recvs, hlen]
+    simp [isRecv, recvOf]
+  · intro t k hm
+    have hm' : Event.handlerStart t k ∈ s.log := by simpa using hm
+    obtain ⟨o, p, h1, h2, h3⟩ := h.hs t k hm'
+    exact ⟨o, p, liftO t o h1, h2, List.mem_append_left _ h3⟩
+  · intro t p pe c x hm
+    have hm' : Event.request t p pe c x ∈ s.log := by simpa using hm
+    obtain ⟨o, k, h1, h2, h3, h4, h5, h6⟩ := h.req t p pe c x hm'
+    exact ⟨o, k, liftO t o h1, h2, h3, h4, h5, List.mem_append_left _ h6⟩
+  · intro t c a w hm
+    have hm' : Event.reply t c a w ∈ s.log := by simpa using hm
+    obtain ⟨o, k, h1, h2, h3, h4, h5⟩ := h.rep t c a w hm'
+    exact ⟨o, k, liftO t o h1, h2, h3, List.mem_append_left _ h4, h5⟩
 
 theorem InvO_step {H : Hash} {cfg : Cfg} {s s' : St} (l : Label) (h : InvO H cfg s)
     (hs : step H cfg s l = some s') : InvO H cfg s' := by
@@ -1996,56 +2136,8 @@ theorem InvO_step {H : Hash} {cfg : Cfg} {s s' : St} (l : Label) (h : InvO H cfg
     obtain ⟨_, rfl⟩ := step_serveCount hs
     exact h.of_same rfl rfl rfl (tasks_same s) hg
   | serveRecv i peer d =>
-    obtain ⟨_, _, rfl⟩ := step_serveRecv hs
-    have hlen := h.len
-    have liftO : ∀ (t : Nat) (o : Origin), s.origin[t]? = some o → (s.origin ++ [(⟨i, peer, d⟩ : Origin)])[t]? = some o := by
-      intro t o hh
-      rw [List.getElem?_append_left (lt_of_getElem?_eq_some hh)]; exact hh
-    -- a position is old in both lists or new in both
-    have both : ∀ (t : Nat) (tk : Task) (o : Origin),
-        (s.tasks ++ [(⟨i, .spawned (classify H cfg peer d)⟩ : Task)])[t]? = some tk →
-        (s.origin ++ [(⟨i, peer, d⟩ : Origin)])[t]? = some o →
-        (s.tasks[t]? = some tk ∧ s.origin[t]? = some o) ∨
-        (tk = ⟨i, .spawned (classify H cfg peer d)⟩ ∧ o = ⟨i, peer, d⟩) := by
-      intro t tk o h1 h2
-      rcases getElem?_append_singleton_some h1 with a | ⟨a1, a2⟩ <;>
-      rcases getElem?_append_singleton_some h2 with b | ⟨b1, b2⟩
-      · exact Or.inl ⟨a, b⟩
-      · have := lt_of_getElem?_eq_some a; omega
-      · have := lt_of_getElem?_eq_some b; omega
-      · exact Or.inr ⟨a2.symm, b2.symm⟩
-    refine ⟨by simp [hlen], ?_, ?_, ?_, ?_, ?_, ?_, ?_, ?_⟩
-    · intro t tk o h1 h2
-      rcases both t tk o h1 h2 with ⟨a, b⟩ | ⟨rfl, rfl⟩
-      · exact h.serve t tk o a b
-      · rfl
-    · intro t i' f o h1 h2
-      rcases both t _ o h1 h2 with ⟨a, b⟩ | ⟨a, rfl⟩
-      · exact h.fate t i' f o a b
-      · cases a; rfl
-    · intro t i' k o h1 h2
-      rcases both t _ o h1 h2 with ⟨a, b⟩ | ⟨a, rfl⟩
-      · exact h.hand t i' k o a b
-      · cases a
-    · intro t i' k h1
-      rcases getElem?_append_singleton_some h1 with a | ⟨_, a⟩
-      · exact List.mem_append_left _ (h.inH t i' k a)
-      · cases a
-    · show (s.log ++ [Event.recv s.tasks.length i peer d]).filter isRecv = (s.origin ++ [(⟨i, peer, d⟩ : Origin)]).mapIdx recvOf
-      rw [List.filter_append, List.mapIdx_concat, ← h.recvs, hlen]
-      simp [isRecv, recvOf]
-    · intro t k hm
-      have hm' : Event.handlerStart t k ∈ s.log := by simpa using hm
-      obtain ⟨o, p, h1, h2, h3⟩ := h.hs t k hm'
-      exact ⟨o, p, liftO t o h1, h2, List.mem_append_left _ h3⟩
-    · intro t p pe c x hm
-      have hm' : Event.request t p pe c x ∈ s.log := by simpa using hm
-      obtain ⟨o, k, h1, h2, h3, h4, h5, h6⟩ := h.req t p pe c x hm'
-      exact ⟨o, k, liftO t o h1, h2, h3, h4, h5, List.mem_append_left _ h6⟩
-    · intro t c a hm
-      have hm' : Event.reply t c a ∈ s.log := by simpa using hm
-      obtain ⟨o, k, h1, h2, h3, h4⟩ := h.rep t c a hm'
-      exact ⟨o, k, liftO t o h1, h2, h3, List.mem_append_left _ h4⟩
+    obtain ⟨_, _, rfl⟩ := step_serveRecv_spawn hs
+    exact InvO_spawn i peer d h
   | serveReadErr i =>
     have hg := good_of_untraced hs (by intro e he; simp only [NewEv] at he; rcases he with rfl | rfl <;> rfl)
     obtain ⟨_, _, _, rfl⟩ := step_serveReadErr hs
@@ -2111,13 +2203,13 @@ theorem InvO_step {H : Hash} {cfg : Cfg} {s s' : St} (l : Label) (h : InvO H cfg
           exact ⟨o', k, h1, h2, h3, h4, h5, lift _ h6⟩
         · cases hm
           exact ⟨o, key, ho, hf.symm, hpe, by rw [hio], rfl, hhs⟩
-      · intro t' c a hm
-        have hm' : Event.reply t' c a ∈ s.log := by simpa using hm
-        obtain ⟨o', k, h1, h2, h3, h4⟩ := h.rep t' c a hm'
-        exact ⟨o', k, h1, h2, h3, lift _ h4⟩
+      · intro t' c a w hm
+        have hm' : Event.reply t' c a w ∈ s.log := by simpa using hm
+        obtain ⟨o', k, h1, h2, h3, h4, h5⟩ := h.rep t' c a w hm'
+        exact ⟨o', k, h1, h2, h3, lift _ h4, h5⟩
     · obtain ⟨hne, rfl⟩ := hh
       have hg : ∃ evs, (activeDone { s with tasks := s.tasks.set t ⟨i, .done⟩, log := s.log ++ [.dropped t] }).log
-          = s.log ++ evs ∧ ∀ e ∈ evs, GoodNew s e := by
+          = s.log ++ evs ∧ ∀ e ∈ evs, GoodNew H cfg s e := by
         obtain ⟨evs, hl, hn⟩ := step_log hs
         refine ⟨evs, hl, fun e he => Or.inl ?_⟩
         have := hn e he
@@ -2132,14 +2224,20 @@ theorem InvO_step {H : Hash} {cfg : Cfg} {s s' : St} (l : Label) (h : InvO H cfg
     have hg := good_of_untraced hs (by intro e he; simp only [NewEv] at he; rcases he with rfl | rfl <;> rfl)
     obtain ⟨i, key, ht, rfl⟩ := step_taskFinish hs
     exact h.of_same (by simp) (by simp) (by simp) (by simpa using tasks_set_done ht) hg
-  | taskReply t =>
-    obtain ⟨i, key, ht, rfl⟩ := step_taskReply hs
+  | taskReply t code attrs =>
+    obtain ⟨i, key, p, w, ht, hp, hw, rfl⟩ := step_taskReply hs
     obtain ⟨o, ho, hio⟩ := origin_of_task h ht
     simp only at hio
-    refine h.of_same rfl rfl rfl (tasks_same s) ⟨[.reply t (s.connOf.getD i 0) (s.peerOf t)], rfl, ?_⟩
+    -- the packet the handler answers is the one its goroutine's datagram was classified to, under the key of the handler
+    obtain ⟨o', key', ho', hcl⟩ := packetOf_some hp
+    rw [ho] at ho'; cases ho'
+    obtain ⟨p', hcl'⟩ := h.hand t i key o ht ho
+    rw [hcl] at hcl'; cases hcl'
+    refine h.of_same rfl rfl rfl (tasks_same s) ⟨[.reply t (s.connOf.getD i 0) (s.peerOf t) w], rfl, ?_⟩
     intro e he
     right
-    refine ⟨t, s.connOf.getD i 0, s.peerOf t, o, key, by simpa using he, ho, peerOf_eq ho, by rw [hio], h.inH t i key ht⟩
+    refine ⟨t, s.connOf.getD i 0, s.peerOf t, w, o, key, by simpa using he, ho, peerOf_eq ho, by rw [hio],
+      h.inH t i key ht, p, code, attrs, hcl, hw⟩
   | downEnter j =>
     have hg := good_of_untraced hs (by
       intro e he; simp only [NewEv] at he; rcases he with ⟨c, rfl⟩ | rfl <;> rfl)
@@ -2229,7 +2327,7 @@ def affectsTasks : Label → Bool
   | _ => false
 
 theorem step_tasks_eq {H : Hash} {cfg : Cfg} {s s' : St} {l : Label} (hl : affectsTasks l = false)
-    (hs : step H cfg s l = some s') : s'.tasks = s.tasks ∧ ∀ e, NewEv s l e → isCounted e = false := by
+    (hs : step H cfg s l = some s') : s'.tasks = s.tasks ∧ ∀ e, NewEv H cfg s l e → isCounted e = false := by
   cases l with
   | serveEnter i =>
     refine ⟨?_, by intro e he; simp only [NewEv] at he; subst he; rfl⟩
@@ -2252,9 +2350,9 @@ theorem step_tasks_eq {H : Hash} {cfg : Cfg} {s s' : St} {l : Label} (hl : affec
     · obtain ⟨_, _, rfl⟩ := hh; rfl
   | taskRun t => cases hl
   | taskFinish t => cases hl
-  | taskReply t =>
-    obtain ⟨i, key, _, rfl⟩ := step_taskReply hs
-    exact ⟨rfl, by intro e he; simp only [NewEv] at he; obtain ⟨_, _, _, rfl⟩ := he; rfl⟩
+  | taskReply t code attrs =>
+    obtain ⟨i, key, p, w, _, _, _, rfl⟩ := step_taskReply hs
+    exact ⟨rfl, by intro e he; simp only [NewEv] at he; obtain ⟨_, _, _, _, _, _, _, rfl⟩ := he; rfl⟩
   | downEnter j =>
     refine ⟨?_, by intro e he; simp only [NewEv] at he; rcases he with ⟨c, rfl⟩ | rfl <;> rfl⟩
     obtain ⟨c, _, hh | hh⟩ := step_downEnter hs
@@ -2279,6 +2377,34 @@ theorem map_pc_set {tasks : List Task} {t t' : Nat} {b : Task} :
     by_cases h2 : t < tasks.length <;> simp [h2]
   · simp [h]
 
+theorem InvC_spawn {H : Hash} {cfg : Cfg} {s : St} (i peer : Nat) (d : Bytes) (h : InvC s) :
+    InvC (spawn H cfg s i peer d) := by
+  rw [spawn_eq]
+  intro t
+  have := h t
+  simp only [hsCount, dropCount, endCount, List.filter_append] at this ⊢
+  have e1 : [Event.recv s.tasks.length i peer d].filter (isHSof t) = [] := by simp [isHSof]
+  have e2 : [Event.recv s.tasks.length i peer d].filter (isDropOf t) = [] := by simp [isDropOf]
+  have e3 : [Event.recv s.tasks.length i peer d].filter (isEndOf t) = [] := by simp [isEndOf]
+  rw [e1, e2, e3]
+  simp only [List.append_nil]
+  by_cases hlt : t < s.tasks.length
+  · rw [List.getElem?_append_left hlt]; exact this
+  · have hnone : s.tasks[t]? = none := List.getElem?_eq_none (by omega)
+    rw [hnone] at this
+    simp only [Option.map_none, countSpec] at this
+    by_cases heq : t = s.tasks.length
+    · subst heq
+      simp only [List.getElem?_concat_length, Option.map_some, countSpec]
+      exact this
+    · have hn2 : (s.tasks ++ [(⟨i, .spawned (classify H cfg peer d)⟩ : Task)])[t]? = none := by
+        apply List.getElem?_eq_none
+        simp only [List.length_append, List.length_cons, List.length_nil]
+        omega
+      rw [hn2]
+      simp only [Option.map_none, countSpec]
+      assumption
+
 theorem InvC_step {H : Hash} {cfg : Cfg} {s s' : St} (l : Label) (h : InvC s)
     (hs : step H cfg s l = some s') : InvC s' := by
   by_cases hl : affectsTasks l = false
@@ -2287,31 +2413,8 @@ theorem InvC_step {H : Hash} {cfg : Cfg} {s s' : St} (l : Label) (h : InvC s)
     exact InvC_same h ht ⟨evs, he, fun e hm => hn e (hne e hm)⟩
   · cases l with
     | serveRecv i peer d =>
-      obtain ⟨_, _, rfl⟩ := step_serveRecv hs
-      intro t
-      have := h t
-      simp only [hsCount, dropCount, endCount, List.filter_append] at this ⊢
-      have e1 : [Event.recv s.tasks.length i peer d].filter (isHSof t) = [] := by simp [isHSof]
-      have e2 : [Event.recv s.tasks.length i peer d].filter (isDropOf t) = [] := by simp [isDropOf]
-      have e3 : [Event.recv s.tasks.length i peer d].filter (isEndOf t) = [] := by simp [isEndOf]
-      rw [e1, e2, e3]
-      simp only [List.append_nil]
-      by_cases hlt : t < s.tasks.length
-      · rw [List.getElem?_append_left hlt]; exact this
-      · have hnone : s.tasks[t]? = none := List.getElem?_eq_none (by omega)
-        rw [hnone] at this
-        simp only [Option.map_none, countSpec] at this
-        by_cases heq : t = s.tasks.length
-        · subst heq
-          simp only [List.getElem?_concat_length, Option.map_some, countSpec]
-          exact this
-        · have hn2 : (s.tasks ++ [(⟨i, .spawned (classify H cfg peer d)⟩ : Task)])[t]? = none := by
-            apply List.getElem?_eq_none
-            simp only [List.length_append, List.length_cons, List.length_nil]
-            omega
-          rw [hn2]
-          simp only [Option.map_none, countSpec]
-          assumption
+      obtain ⟨_, _, rfl⟩ := step_serveRecv_spawn hs
+      exact InvC_spawn i peer d h
     | taskRun t =>
       obtain ⟨i, fate, ht, hh | hh⟩ := step_taskRun hs
       · obtain ⟨key, p, rfl, hk, rfl⟩ := hh
@@ -2513,8 +2616,8 @@ theorem step_drain_le {H : Hash} {cfg : Cfg} {s s' : St} {l : Label} (h : InvF s
       simp only [countedServes, liveTasks, spawnedTasks] at *
       omega
     exact ⟨by simpa using hsd, by omega, fun _ => by omega, by intro hx; cases hx⟩
-  | taskReply t =>
-    obtain ⟨i, key, _, rfl⟩ := step_taskReply hs
+  | taskReply t code attrs =>
+    obtain ⟨i, key, p, w, _, _, _, rfl⟩ := step_taskReply hs
     exact ⟨hsd, Nat.le_refl _, (by intro hx; cases hx), fun _ => rfl⟩
   | downEnter j =>
     obtain ⟨c, _, hh | hh⟩ := step_downEnter hs
@@ -2542,6 +2645,23 @@ theorem drain_label_enabled {H : Hash} {cfg : Cfg} {s : St} (h : InvF s) (hsd : 
   | false =>
     have := (step_drain_le h hsd hs).2.2.2 hd
     omega
+
+theorem isDrain_of_own {l : Label} (h : isOwnDrainLabel l = true) : isDrainLabel l = true := by
+  cases l <;> first | rfl | cases h
+
+/-- while the server is not drained, one of the server's OWN drain steps is enabled -/
+theorem own_drain_label_enabled {H : Hash} {cfg : Cfg} {s : St} (h : InvF s) (hsd : s.sd = true)
+    (hm : countedServes s + liveTasks s ≠ 0) :
+    ∃ l s', isOwnDrainLabel l = true ∧ step H cfg s l = some s' ∧ s'.sd = true ∧ drainMeasure s' < drainMeasure s :=
+  drain_progress_own (H := H) (cfg := cfg) h hsd hm
+
+/-- the number of enabled steps with one of the server's own drain labels that a schedule takes from `s` -/
+def ownDrainSteps (H : Hash) (cfg : Cfg) : St → List Label → Nat
+  | _, [] => 0
+  | s, l :: ls =>
+    match step H cfg s l with
+    | some s' => (if isOwnDrainLabel l then 1 else 0) + ownDrainSteps H cfg s' ls
+    | none => ownDrainSteps H cfg s ls
 
 /-- the number of enabled steps with a drain label that a schedule takes from `s` -/
 def drainSteps (H : Hash) (cfg : Cfg) : St → List Label → Nat
@@ -2571,6 +2691,23 @@ theorem drain_bound (H : Hash) (cfg : Cfg) (hv : cfg.variant = .fixed) :
       refine ⟨h1, ?_⟩
       cases hd : isDrainLabel l with
       | true => have := hlt hd; simp only [if_true]; omega
+      | false => simp only [Bool.false_eq_true, if_false]; omega
+
+theorem ownDrainSteps_le (H : Hash) (cfg : Cfg) :
+    ∀ (ls : List Label) (s : St), ownDrainSteps H cfg s ls ≤ drainSteps H cfg s ls := by
+  intro ls
+  induction ls with
+  | nil => intro s; simp [ownDrainSteps, drainSteps]
+  | cons l ls ih =>
+    intro s
+    simp only [ownDrainSteps, drainSteps]
+    cases hs : step H cfg s l with
+    | none => exact ih s
+    | some s' =>
+      simp only []
+      have := ih s'
+      cases ho : isOwnDrainLabel l with
+      | true => rw [isDrain_of_own ho]; simp only [if_true]; omega
       | false => simp only [Bool.false_eq_true, if_false]; omega
 
 theorem Drained_counts {s : St} (h : Drained s) : countedServes s = 0 ∧ liveTasks s = 0 := by
@@ -2630,7 +2767,7 @@ theorem step_down_rank {H : Hash} {cfg : Cfg} {s s' : St} {l : Label} (hs : step
     · obtain ⟨key, p, rfl, hk, rfl⟩ := hh; exact same rfl
     · obtain ⟨_, rfl⟩ := hh; exact same (by simp)
   | taskFinish t => obtain ⟨i, key, ht, rfl⟩ := step_taskFinish hs; exact same (by simp)
-  | taskReply t => obtain ⟨i, key, _, rfl⟩ := step_taskReply hs; exact same rfl
+  | taskReply t code attrs => obtain ⟨i, key, p, w, _, _, _, rfl⟩ := step_taskReply hs; exact same rfl
   | downEnter j =>
     obtain ⟨c, hj, hh | hh⟩ := step_downEnter hs
     · obtain ⟨_, rfl⟩ := hh
@@ -2667,7 +2804,8 @@ theorem run_down_rank (H : Hash) (cfg : Cfg) :
 
 /-! ### which step a traced event comes from; the conns never change -/
 
-theorem newEv_recv {s : St} {l : Label} {t i peer : Nat} {d : Bytes} (h : NewEv s l (.recv t i peer d)) :
+theorem newEv_recv {H : Hash} {cfg : Cfg} {s : St} {l : Label} {t i peer : Nat} {d : Bytes}
+    (h : NewEv H cfg s l (.recv t i peer d)) :
     l = .serveRecv i peer d ∧ t = s.tasks.length := by
   cases l <;> simp only [NewEv] at h
   case serveRecv i' peer' d' => cases h; exact ⟨rfl, rfl⟩
@@ -2676,12 +2814,13 @@ theorem newEv_recv {s : St} {l : Label} {t i peer : Nat} {d : Bytes} (h : NewEv 
   case serveReadFail => rcases h with h | h <;> cases h
   case taskRun => rcases h with h | h | ⟨_, _, _, _, _, h | h⟩ <;> cases h
   case taskFinish => rcases h with h | h <;> cases h
-  case taskReply => obtain ⟨_, _, _, h⟩ := h; cases h
+  case taskReply => obtain ⟨_, _, _, _, _, _, _, h⟩ := h; cases h
   case downEnter => rcases h with ⟨_, h⟩ | h <;> cases h
   case downReturnNil => cases h
   case downReturnCtx => cases h
 
-theorem newEv_handlerStart {s : St} {l : Label} {t : Nat} {key : Key} (h : NewEv s l (.handlerStart t key)) :
+theorem newEv_handlerStart {H : Hash} {cfg : Cfg} {s : St} {l : Label} {t : Nat} {key : Key}
+    (h : NewEv H cfg s l (.handlerStart t key)) :
     l = .taskRun t ∧ ∃ i p, s.tasks[t]? = some (⟨i, .spawned (.handle key p)⟩ : Task) ∧ key ∉ s.inflight.getD i [] := by
   cases l <;> simp only [NewEv] at h
   case taskRun t' =>
@@ -2695,18 +2834,20 @@ theorem newEv_handlerStart {s : St} {l : Label} {t : Nat} {key : Key} (h : NewEv
   case serveReadErr => rcases h with h | h <;> cases h
   case serveReadFail => rcases h with h | h <;> cases h
   case taskFinish => rcases h with h | h <;> cases h
-  case taskReply => obtain ⟨_, _, _, h⟩ := h; cases h
+  case taskReply => obtain ⟨_, _, _, _, _, _, _, h⟩ := h; cases h
   case downEnter => rcases h with ⟨_, h⟩ | h <;> cases h
   case downReturnNil => cases h
   case downReturnCtx => cases h
 
-theorem newEv_reply {s : St} {l : Label} {t conn addr : Nat} (h : NewEv s l (.reply t conn addr)) :
-    l = .taskReply t ∧ ∃ i key, s.tasks[t]? = some (⟨i, .inHandler key⟩ : Task) ∧
-      conn = s.connOf.getD i 0 ∧ addr = s.peerOf t := by
+theorem newEv_reply {H : Hash} {cfg : Cfg} {s : St} {l : Label} {t conn addr : Nat} {w : Bytes}
+    (h : NewEv H cfg s l (.reply t conn addr w)) :
+    ∃ code attrs, l = .taskReply t code attrs ∧ ∃ i key p, s.tasks[t]? = some (⟨i, .inHandler key⟩ : Task) ∧
+      conn = s.connOf.getD i 0 ∧ addr = s.peerOf t ∧ s.packetOf H cfg t = some p ∧
+      encode H { response p code with attrs := attrs } = .ok w := by
   cases l <;> simp only [NewEv] at h
-  case taskReply t' =>
-    obtain ⟨i, key, h1, h2⟩ := h
-    cases h2; exact ⟨rfl, i, key, h1, rfl, rfl⟩
+  case taskReply t' code attrs =>
+    obtain ⟨i, key, p, w', h1, hp, hw, h2⟩ := h
+    cases h2; exact ⟨code, attrs, rfl, i, key, p, h1, rfl, rfl, hp, hw⟩
   case taskRun => rcases h with h | h | ⟨_, _, _, _, _, h | h⟩ <;> cases h
   case serveRecv => cases h
   case serveEnter => cases h
@@ -2738,7 +2879,7 @@ theorem step_connOf {H : Hash} {cfg : Cfg} {s s' : St} {l : Label} (hs : step H 
     · obtain ⟨key, p, rfl, hk, rfl⟩ := hh; rfl
     · obtain ⟨_, rfl⟩ := hh; simp
   | taskFinish t => obtain ⟨i, key, ht, rfl⟩ := step_taskFinish hs; simp
-  | taskReply t => obtain ⟨i, key, _, rfl⟩ := step_taskReply hs; rfl
+  | taskReply t code attrs => obtain ⟨i, key, p, w, _, _, _, rfl⟩ := step_taskReply hs; rfl
   | downEnter j =>
     obtain ⟨c, hj, hh | hh⟩ := step_downEnter hs
     · obtain ⟨_, rfl⟩ := hh; rfl
@@ -2805,6 +2946,35 @@ theorem hs_key_unique {s : St} (h : InvC s) {t : Nat} {k k' : Key} (h1 : Event.h
     have := InvC_hsCount_le h t
     simp only [hsCount] at this
     omega
+
+/-- What a `reply` event says, in any state satisfying the origin invariant: destination = source of the
+    datagram that spawned the goroutine, socket = conn of the Serve call that read it, and the octets are
+    the encoding of a Response (code and attributes of the handler's choice) of the packet that datagram
+    parses to under the secret the secret source gave for that peer — hence, for a reply code, a datagram
+    whose Response Authenticator is valid for the request datagram under that secret (C03). -/
+theorem reply_answers_of_InvO {H : Hash} (hH : ∀ x, (H x).length = 16) {cfg : Cfg} {s : St} (hO : InvO H cfg s)
+    {t conn addr : Nat} {w : Bytes} (h : Event.reply t conn addr w ∈ s.log) :
+    ∃ (i peer : Nat) (d : Bytes) (key : Key) (p : Packet) (sec : Bytes) (code : Int) (attrs : Attrs),
+      Event.recv t i peer d ∈ s.log ∧ s.origin[t]? = some ⟨i, peer, d⟩ ∧
+      addr = peer ∧ conn = s.connOf.getD i 0 ∧
+      Event.request t p peer (s.connOf.getD i 0) .server ∈ s.log ∧ Event.handlerStart t key ∈ s.log ∧
+      classify H cfg peer d = .handle key p ∧
+      cfg.secretOf peer = .secret sec ∧ sec ≠ [] ∧ parse d sec = .ok p ∧ p.secret = sec ∧
+      encode H { response p code with attrs := attrs } = .ok w ∧
+      (Rfc.encClass code = .hashReqAuth → isAuthenticResponse H w d sec = true) := by
+  obtain ⟨⟨i, peer, d⟩, key, ho, ha, hc, hhs, p, code, attrs, hcl, henc⟩ := hO.rep t conn addr w h
+  simp only at ha hc hcl
+  obtain ⟨o', p', ho', hcl', hreq⟩ := hO.hs t key hhs
+  rw [ho] at ho'; cases ho'
+  simp only at hcl' hreq
+  rw [hcl] at hcl'; cases hcl'
+  obtain ⟨sec, hs, hne, _, hp, _⟩ := (classify_handle_iff' H cfg peer d key p).mp hcl
+  have hps := (parse_secret hp).1
+  refine ⟨i, peer, d, key, p, sec, code, attrs, (recv_mem_iff hO t i peer d).mpr ho, ho, ha, hc, hreq, hhs, hcl,
+    hs, hne, hp, hps, henc, ?_⟩
+  intro hcode
+  rw [← hps]
+  exact reply_authentic' H hH cfg peer d key p code attrs w hcl hcode henc
 
 /-- a second datagram for the non-vacuity examples of C06: peer 5 -/
 theorem classify_example5 :
